@@ -72,7 +72,8 @@ def check(rep, ctx):
                     elif miss.get("k") == "ignore-without-skipping":
                         problems.append("an unknown tag is ignored without consuming its payload (the stream is mis-framed)")
                     else:
-                        problems.append(f"miss arm not understood: {miss}")
+                        # the analyser could not describe the arm: a limit of the analysis, never a verdict about the code
+                        rep.limit(f"{plan['reader']['codec'].get('fn')}: arm for an unknown tag not understood: {str(miss)[:200]}")
                 elif not miss.get("exact"):
                     problems.append("unknown tag payload is skipped with an unchecked read")
                 if tg.get("iteration_prefix") != [5, 5]:
